@@ -287,12 +287,12 @@ func Run(prefix []int, bodies []func()) *Execution {
 
 // Explorer enumerates schedules.
 type Explorer struct {
-	Bound      int // max preemptions (-1: unbounded)
-	MaxExec    int
+	Bound   int // max preemptions (-1: unbounded)
+	MaxExec int
 	// MaxTime: stop exploring (Capped) when this much wall-clock time has been spent on the
 	// scenario; 0 = no limit. A cap is reported, never a verdict.
-	MaxTime time.Duration
-	started time.Time
+	MaxTime    time.Duration
+	started    time.Time
 	Executions int
 	MaxPoints  int
 	Capped     bool
